@@ -2,7 +2,7 @@
     Only statements here; proofs are in SM/PathNormProofs.v.  [raise_if] is the condition under which
     RawFileSystem._resolve_path raises RootEscapeError, regenerated from filesys.py into Gen/Containment_gen.v. *)
 From Coq Require Import List NArith Bool.
-From SV Require Import SM.PathNorm SM.PathNormProofs SM.PathOps SM.PathOpsProofs Gen.Containment_gen Gen.FsOps_gen.
+From SV Require Import SM.PathNorm SM.PathNormProofs SM.PathOps SM.PathOpsProofs SM.PathWalkRel Gen.Containment_gen Gen.FsOps_gen.
 Import ListNotations.
 
 (** Census obligation: every file-system access of RawFileSystem goes through _resolve_path. *)
@@ -183,3 +183,22 @@ Theorem c18_inside_walk_stays_in_root : forall root a, inside root a ->
     segs a = segs root ++ rest /\
     forall k, follow [] (segs root ++ firstn k rest) = Some (rev (firstn k rest) ++ rev (segs root)).
 Proof. exact inside_walk_stays_in_root. Qed.
+
+(** Fidelity of walk_folder: the handle it yields stores relpath(join(dirpath, file), root) with the slashes changed;
+    when there is no backslash to change, opening the handle computes a path with exactly the segments of the file
+    os.walk found (so a yielded handle opens what was listed).  relpath is modelled in SM/PathWalkRel.v and compared
+    with os.path.relpath by the correspondence. *)
+Theorem c18_walk_yield_names_the_file_found :
+  forall os_walk : str -> list (str * list str),
+    (forall top d fs, In (d, fs) (os_walk top) ->
+       (exists names, forallb entry_nameb names = true /\ d = descend top names) /\ forallb entry_nameb fs = true) ->
+    forall g cwd root_arg folder top d fs f,
+      raise_sound g = true -> is_abs cwd = true ->
+      resolve g true cwd root_arg folder = Ok top ->
+      In (d, fs) (os_walk top) -> In f fs ->
+      let root := abspath cwd root_arg in
+      let file := pjoin d f in
+      let y := relpath cwd file root in
+      unbackslash y = y ->
+      segs (abspath cwd (pjoin root (unbackslash y))) = segs file.
+Proof. exact walk_yield_names_the_file_found. Qed.
